@@ -213,3 +213,267 @@ def s_n_unmappable(ev, state, node):
                            patterns=[f(j + 1)]),
                  z3.ForAll([j], z3.Implies(j >= 0, z3.And(0 <= f(j), f(j) <= j)), patterns=[f(j)]))
     return SymVal(T.INT, f(k))
+
+
+# ---------------------------------------------------------------------------------------------
+# h5py datasets: an array (what slicing returns) plus `.chunks`
+#   trusted: Dataset.chunks is None (contiguous layout) or a tuple with one *positive* int per
+#   dimension ("All chunk dimensions must be positive", h5py/HDF5); nothing else is assumed
+#   about it (in particular not chunks <= shape: resizable datasets may have larger chunks)
+# ---------------------------------------------------------------------------------------------
+from pyvc import numpy_prims as _np     # noqa: E402
+
+_CH1_T = T.TOpt(T.TTuple([T.INT]))
+_CH2_T = T.TOpt(T.TTuple([T.INT, T.INT]))
+_CHUNKS = {}
+
+
+def _chunks_fn(arr_ty, out_ty):
+    key = (T.sort_of(arr_ty), T.sort_of(out_ty))
+    if key not in _CHUNKS:
+        _CHUNKS[key] = z3.Function(f'h5_chunks_{len(_CHUNKS)}', T.sort_of(arr_ty), T.sort_of(out_ty))
+    return _CHUNKS[key]
+
+
+def _attr_chunks1(ev, state, base, node):
+    r = SymVal(_CH1_T, _chunks_fn(base.ty, _CH1_T)(base.term))
+    inner = T.acc(_CH1_T, 'val')(r.term)
+    state.assume(z3.Implies(z3.Not(T.opt_is_none(_CH1_T, r.term)),
+                            T.acc(_CH1_T[1], 'f0')(inner) >= 1))
+    return r
+
+
+def _attr_chunks2(ev, state, base, node):
+    r = SymVal(_CH2_T, _chunks_fn(base.ty, _CH2_T)(base.term))
+    inner = T.acc(_CH2_T, 'val')(r.term)
+    state.assume(z3.Implies(z3.Not(T.opt_is_none(_CH2_T, r.term)),
+                            z3.And(T.acc(_CH2_T[1], 'f0')(inner) >= 1,
+                                   T.acc(_CH2_T[1], 'f1')(inner) >= 1)))
+    return r
+
+
+_np.EXTRA_ATTRS[('arr', 'chunks')] = _attr_chunks1
+_np.EXTRA_ATTRS[('arr2', 'chunks')] = _attr_chunks2
+
+
+# ---------------------------------------------------------------------------------------------
+# contents of the cell-by-gene layer of an h5ad file (uninterpreted; native twins read the file
+# through anndata, independently of the code under contract)
+#   x_has_values(path, layer)  some value is stored (dense: shape non-empty; sparse: nnz > 0)
+#   x_min / x_max(path, layer) extreme *stored* values
+# ---------------------------------------------------------------------------------------------
+X_HAS = z3.Function('x_has_values', z3.IntSort(), z3.IntSort(), z3.BoolSort())
+X_MIN = z3.Function('x_min', z3.IntSort(), z3.IntSort(), z3.RealSort())
+X_MAX = z3.Function('x_max', z3.IntSort(), z3.IntSort(), z3.RealSort())
+
+
+def _stored_values(path, layer):
+    import anndata
+    import numpy as np
+    import scipy.sparse as sp
+    a = anndata.read_h5ad(path)
+    m = a.X if layer == 'X' else a.layers[layer]
+    if sp.issparse(m):
+        return np.asarray(m.data)
+    return np.asarray(m).ravel()
+
+
+def _x_has_native(path, layer):
+    return _stored_values(path, layer).size > 0
+
+
+def _x_min_native(path, layer):
+    v = _stored_values(path, layer)
+    return float(v.min()) if v.size else float('nan')
+
+
+def _x_max_native(path, layer):
+    v = _stored_values(path, layer)
+    return float(v.max()) if v.size else float('nan')
+
+
+def _mk_layer_fn(fn, ty):
+    def h(ev, state, node):
+        p = coerce(ev.eval(state, node.args[0]), T.NAME)
+        l_ = coerce(ev.eval(state, node.args[1]), T.NAME)
+        return SymVal(ty, fn(p.term, l_.term))
+    return h
+
+
+spec_function('x_has_values', native=_x_has_native)(_mk_layer_fn(X_HAS, T.BOOL))
+spec_function('x_min', native=_x_min_native)(_mk_layer_fn(X_MIN, T.REAL))
+spec_function('x_max', native=_x_max_native)(_mk_layer_fn(X_MAX, T.REAL))
+
+
+# ---------------------------------------------------------------------------------------------
+# np.round / np.abs on whole arrays (elementwise), and rint(x) for specifications
+#   np_rint(x): round-half-even as a *function* Real -> Int (usable under quantifiers), axiom:
+#   |np_rint(x) - x| <= 1/2 and ties go to the even neighbour  (T: numpy.round, audited by c16)
+# ---------------------------------------------------------------------------------------------
+NP_RINT = z3.Function('np_rint', z3.RealSort(), z3.IntSort())
+_HALF = z3.RealVal('1/2')
+
+
+def _rint_axiom(ctx):
+    if getattr(ctx, '_rint_axiom_added', False):
+        return
+    x = z3.Real('rint!x')
+    r = z3.ToReal(NP_RINT(x))
+    ctx.axioms.append(z3.ForAll([x], z3.And(r - x <= _HALF, x - r <= _HALF,
+                                            z3.Implies(z3.Or(r - x == _HALF, x - r == _HALF),
+                                                       NP_RINT(x) % 2 == 0)),
+                                patterns=[NP_RINT(x)]))
+    ctx._rint_axiom_added = True
+
+
+def _rint_native(x):
+    import numpy as np
+    return float(np.round(x))
+
+
+@spec_function('rint', native=_rint_native)
+def s_rint(ev, state, node):
+    from pyvc.engine import to_real
+    _rint_axiom(ev.ctx)
+    v = ev.eval(state, node.args[0])
+    return SymVal(T.REAL, z3.ToReal(NP_RINT(to_real(v))))
+
+
+_scalar_round = _np.QUALIFIED['numpy.round']
+
+
+def _q_round(ev, state, node):
+    v = ev.eval(state, node.args[0])
+    if v.ty[0] not in ('arr', 'arr2') or len(node.args) != 1 or node.keywords:
+        return _scalar_round(ev, state, node)
+    if v.ty[1] != T.REAL:
+        return SymVal(v.ty, v.term)
+    _rint_axiom(ev.ctx)
+    r = fresh(v.ty, 'rounded')
+    if v.ty[0] == 'arr':
+        i = z3.Int(fresh_name('ri'))
+        state.assume(seq_len(r) == seq_len(v),
+                     z3.ForAll([i], z3.Implies(z3.And(0 <= i, i < seq_len(v)),
+                                               seq_at(r, i) == z3.ToReal(NP_RINT(seq_at(v, i)))),
+                               patterns=[seq_at(r, i), seq_at(v, i)]))
+    else:
+        i, j = z3.Int(fresh_name('ri')), z3.Int(fresh_name('rj'))
+        state.assume(_np.m_n0(r) == _np.m_n0(v), _np.m_n1(r) == _np.m_n1(v),
+                     z3.ForAll([i, j], z3.Implies(z3.And(0 <= i, i < _np.m_n0(v), 0 <= j, j < _np.m_n1(v)),
+                                                  _np.m_at(r, i, j) == z3.ToReal(NP_RINT(_np.m_at(v, i, j)))),
+                               patterns=[_np.m_at(r, i, j), _np.m_at(v, i, j)]))
+    return r
+
+
+_np.QUALIFIED['numpy.round'] = _q_round
+
+
+@_np.q('numpy.abs')
+def _q_abs(ev, state, node):
+    v = ev.eval(state, node.args[0])
+    ab = lambda t: z3.If(t < 0, -t, t)      # noqa: E731
+    if v.ty in (T.INT, T.REAL):
+        return SymVal(v.ty, ab(v.term))
+    if v.ty[0] == 'arr' and v.ty[1] in (T.INT, T.REAL):
+        r = fresh(v.ty, 'abs')
+        i = z3.Int(fresh_name('ai'))
+        state.assume(seq_len(r) == seq_len(v),
+                     z3.ForAll([i], z3.Implies(z3.And(0 <= i, i < seq_len(v)),
+                                               seq_at(r, i) == ab(seq_at(v, i))),
+                               patterns=[seq_at(r, i), seq_at(v, i)]))
+        return r
+    if v.ty[0] == 'arr2' and v.ty[1] in (T.INT, T.REAL):
+        r = fresh(v.ty, 'abs')
+        i, j = z3.Int(fresh_name('ai')), z3.Int(fresh_name('aj'))
+        state.assume(_np.m_n0(r) == _np.m_n0(v), _np.m_n1(r) == _np.m_n1(v),
+                     z3.ForAll([i, j], z3.Implies(z3.And(0 <= i, i < _np.m_n0(v), 0 <= j, j < _np.m_n1(v)),
+                                                  _np.m_at(r, i, j) == ab(_np.m_at(v, i, j))),
+                               patterns=[_np.m_at(r, i, j), _np.m_at(v, i, j)]))
+        return r
+    raise Unsupported(f"np.abs of {T.show(v.ty)}")
+
+
+@_np.q('numpy.issubdtype')
+def _q_issubdtype(ev, state, node):
+    """np.issubdtype(a.dtype, np.integer) for an array a of the model: the dtype itself is not
+    modelled; trusted: an array whose dtype is an integer type holds integral values"""
+    a0, a1 = node.args
+    if isinstance(a0, ast.Attribute) and a0.attr == 'dtype' and ev.qualified(a1) == 'numpy.integer':
+        base = ev.eval(state, a0.value)
+        b = z3.Bool(fresh_name('is_int_dtype'))
+        if base.ty[0] == 'arr' and base.ty[1] == T.REAL:
+            _rint_axiom(ev.ctx)
+            i = z3.Int(fresh_name('ii'))
+            state.assume(z3.Implies(b, z3.ForAll([i], z3.Implies(
+                z3.And(0 <= i, i < seq_len(base)),
+                seq_at(base, i) == z3.ToReal(NP_RINT(seq_at(base, i)))))))
+            return SymVal(T.BOOL, b)
+        if base.ty[0] == 'arr2' and base.ty[1] == T.REAL:
+            _rint_axiom(ev.ctx)
+            i, j = z3.Int(fresh_name('ii')), z3.Int(fresh_name('ij'))
+            state.assume(z3.Implies(b, z3.ForAll([i, j], z3.Implies(
+                z3.And(0 <= i, i < _np.m_n0(base), 0 <= j, j < _np.m_n1(base)),
+                _np.m_at(base, i, j) == z3.ToReal(NP_RINT(_np.m_at(base, i, j)))))))
+            return SymVal(T.BOOL, b)
+        if base.ty[0] in ('arr', 'arr2') and base.ty[1] == T.INT:
+            return SymVal(T.BOOL, b)
+    raise Unsupported("np.issubdtype form")
+
+
+# ---------------------------------------------------------------------------------------------
+# Another extension (ext/scores.py, loaded later) registers its own numpy.abs for 1-D arrays and
+# scalars.  install_overrides() is called by contracts/c_validation_utils.py (contract modules load
+# after every extension): 2-D operands go to the handler above, everything else to whatever
+# handler is registered at that time.
+# ---------------------------------------------------------------------------------------------
+_PREV = {}
+
+
+def _abs_composed(ev, state, node):
+    v = ev.eval(state, node.args[0])
+    prev = _PREV.get('abs')
+    if v.ty[0] == 'arr2' or prev is None:
+        return _q_abs(ev, state, node)
+    return prev(ev, state, node)
+
+
+def install_overrides():
+    cur = _np.QUALIFIED.get('numpy.abs')
+    if cur is not _abs_composed:
+        _PREV['abs'] = cur if cur is not _q_abs else None
+        _np.QUALIFIED['numpy.abs'] = _abs_composed
+    if _np.QUALIFIED.get('numpy.round') is not _q_round:
+        _np.QUALIFIED['numpy.round'] = _q_round
+
+
+# ---------------------------------------------------------------------------------------------
+# paths as identifiers (A-PATH): Path(x) is x (registered by ext/precompute.py as well);
+#   p.resolve()  a function of p  (equal paths resolve equally; hence resolve(p) != resolve(q)
+#                implies p != q - the only fact the aliasing guard of _validate_h5ad needs)
+#   p.exists()   unknown boolean;  p.unlink()  no effect on the tracked state
+#   p.name / p.suffix : uninterpreted strings
+# ---------------------------------------------------------------------------------------------
+from pyvc import prims as _prims     # noqa: E402
+
+PATH_RESOLVE = z3.Function('path_resolve', z3.IntSort(), z3.IntSort())
+
+
+def _q_path(ev, state, node):
+    v = ev.eval(state, node.args[0])
+    if v.ty == T.TOpt(T.NAME):
+        ev.ctx.oblige(state, z3.Not(T.opt_is_none(v.ty, v.term)), 'TypeError', node,
+                      'pathlib.Path(None) is a TypeError')
+        return SymVal(T.NAME, T.acc(v.ty, 'val')(v.term))
+    if v.ty != T.NAME:
+        raise Unsupported("pathlib.Path of a non-name")
+    return v
+
+
+if 'pathlib.Path' not in _prims.QUALIFIED:
+    _prims.QUALIFIED['pathlib.Path'] = _q_path
+
+_prims.NAME_METHODS.setdefault('resolve', lambda ev, state, node, recv: SymVal(T.NAME, PATH_RESOLVE(recv.term)))
+_prims.NAME_METHODS.setdefault('exists', lambda ev, state, node, recv: SymVal(T.BOOL, z3.Bool(fresh_name('exists'))))
+_prims.NAME_METHODS.setdefault('unlink', lambda ev, state, node, recv: NONEVAL)
+_np.EXTRA_ATTRS.setdefault(('name', 'name'), lambda ev, state, base, node: fresh(T.NAME, 'path_name'))
+_np.EXTRA_ATTRS.setdefault(('name', 'suffix'), lambda ev, state, base, node: fresh(T.NAME, 'path_suffix'))
